@@ -135,9 +135,6 @@ func c07OrderSpecs(s c07Sel, maxLen int) [][]c07Order {
 				continue
 			}
 			for _, d := range dirs {
-				if d == "" && len(cur) > 0 {
-					continue // the default direction is exercised on the first field only
-				}
 				rec(append(cur, c07Order{Name: nm, Col: s.cols[i], Desc: d == "desc", Dir: d}), used|1<<i)
 			}
 		}
